@@ -756,8 +756,9 @@ class C15(Prop):
     model_modules = ['LokiModel.C15.Model']
     theorems = ['C15_findNodes_eq_filter_preorder', 'C15_findNodes_greedy_eq_pruned', 'C15_walk_complete',
                 'C15_finder_plain_eq_spec', 'C15_finder_complete_partial', 'C15_finder_complete_full_false',
-                'C15_unique_sound_partial', 'C15_unique_statement_eq_dedupe', 'C15_pairing_eq_spec_partial',
-                'C15_pairing_same_multiset_partial', 'C15_pairing_full_false', 'C15_tables_agree']
+                'C15_unique_sound_partial', 'C15_unique_statement_eq_dedupe', 'C15_pairing_eq_spec',
+                'C15_pairing_same_multiset', 'C15_pairing_declaration_regression', 'C15_findScopes_eq_paths',
+                'C15_findScopes_last', 'C15_paths_spec', 'C15_tables_agree']
     design_ref = 'DESIGN.md 4.B C15'
     level = 'proof'
     level_text = ('Theorems (Lean kernel; all trees over arbitrary node kinds with arbitrarily nested child tuples, all expression '
@@ -768,14 +769,15 @@ class C15(Prop):
                   'expression-valued fields filtered by the query), C15_finder_plain_eq_spec (unique=False: the finds of all '
                   'traversable expressions in order, never raises). PARTIAL: the reading "every expression of the tree" is refuted '
                   '(C15_finder_complete_full_false: PrintStmt.values / FormatStmt.values / Enumeration.symbols are not traversable) '
-                  'and proved outside that class (C15_finder_complete_partial); with_ir_node is refuted on declarations '
-                  '(C15_pairing_full_false) and proved for trees without VariableDeclaration: exactly one pair per node with own '
-                  'finds, children first (C15_pairing_eq_spec_partial), same multiset as the plain result '
-                  '(C15_pairing_same_multiset_partial); unique=True: for every tree no exception, only plain finds, pairwise not == '
+                  'and proved outside that class (C15_finder_complete_partial). FULL (after the repair of visit_VariableDeclaration): '
+                  'with_ir_node on every tree = exactly one pair per node with own finds (declarations: plus the finds in initial '
+                  'values), children first (C15_pairing_eq_spec), same multiset as the plain result; FULL (after the repair of '
+                  'FindScopes.visit_TypeDef): FindScopes = the ancestor chains of exactly the nodes identical to the match, in '
+                  'pre-order (C15_findScopes_eq_paths, C15_paths_spec, C15_findScopes_last) '
+                  '(C15_pairing_same_multiset); PARTIAL unique=True: for every tree no exception, only plain finds, pairwise not == '
                   '(C15_unique_sound_partial), and = one find_uniques of the plain result for statements '
                   '(C15_unique_statement_eq_dedupe). NOT proved, correspondence and direct oracle only: that on nested trees the '
-                  'nested find_uniques equals one flat application (holds only for key-coherent finds); FindScopes (modelled, '
-                  'compared with the real code, no theorem).')
+                  'nested find_uniques equals one flat application (holds only for key-coherent finds).')
     level_note = ('Model is hand-written. Expression objects are exported as the object graph the walk sees (Scalar/Array around '
                   '_symbol, ArraySubscript with the index tuple, raw Python ints), node trees as `children` (the _traversable fields in '
                   'order, nested tuples kept) plus the non-traversable expression fields; str(e), class names and e.name are opaque '
@@ -934,7 +936,7 @@ class C15(Prop):
             rec(root, [])
             ok = len(got) == len(want) and all(isinstance(g, list) and [id(a) for a in g] == [id(b) for b in w] for g, w in zip(got, want))
             if not ok:
-                cls = 'findscopes-typedef-returns-node' if isinstance(m, ir.TypeDef) else None
+                cls = None
                 fails.append(Failure(f'FindScopes returned {[show(g) if isinstance(g, list) else "NODE " + show([g]) for g in got]}, '
                                      f'ancestor chains are {[show(w) for w in want]}', cls))
         elif op == 'retrieve':
@@ -957,11 +959,10 @@ class C15(Prop):
             want = [e for n in nodes for e in o_node_exprs(n) if q(e)]
             travc = collections.Counter(map(ckey, (e for n in nodes for e in o_node_exprs(n, True) if q(e))))
             hidden_hit = travc != collections.Counter(map(ckey, want))
-            decl_hit = any(isinstance(n, ir.VariableDeclaration) and any(q(e) for e in o_node_exprs(n, True)) for n in nodes)
             try:
                 got = F(unique=unique, with_ir_node=pairing).visit(root)
             except AssertionError:
-                cls = 'pairing-leaks-raw-declaration-children' if (pairing and decl_hit) else None
+                cls = None
                 return [Failure(f'{finder}(unique={unique}, with_ir_node={pairing}) raised AssertionError', cls)]
             wantc = collections.Counter(map(ckey, want))
             if not pairing and not unique:
@@ -975,7 +976,7 @@ class C15(Prop):
                 if len(set(gk)) != len(gk) or set(gk) != pk or not all(any(g is p for p in plain) for g in got):
                     fails.append(Failure(f'{finder}(unique=True) keys {sorted(map(str, gk))} vs keys of the plain result {sorted(map(str, pk))}', None))
             else:
-                cls = 'pairing-leaks-raw-declaration-children' if decl_hit else None
+                cls = None
                 flat = []
                 bad = None
                 for r in got:
@@ -1006,7 +1007,7 @@ class C15(Prop):
         return fails
 
     def classes(self):
-        return ['expression-field-not-traversable', 'pairing-leaks-raw-declaration-children', 'findscopes-typedef-returns-node']
+        return ['expression-field-not-traversable']
 
     def shrink_candidates(self, req):
         return iter(())     # a request carries RECIPE and EXPORT in sync; generic S-expression deletion would desynchronise them
